@@ -175,7 +175,7 @@ func c06body(spec c06spec, obs *c06obs) func(x *vrt.Exec) {
 				run.Failed = true
 				return fxOutcome{Exit: 1}
 			}
-			if strings.HasPrefix(what, "group:") {
+			if strings.HasPrefix(what, "group:") || c06hasGroup(run) {
 				groupSeen[run.Hook] = true
 			}
 			return fxOutcome{}
@@ -248,6 +248,17 @@ func c06body(spec c06spec, obs *c06obs) func(x *vrt.Exec) {
 	}
 }
 
+// c06hasGroup: the execution carries a Group context (a start-up execution classified by its
+// Synchronization context may also hold the group's part of the start-up).
+func c06hasGroup(r *fxRun) bool {
+	for _, c := range r.Contexts {
+		if c["type"] == "Group" {
+			return true
+		}
+	}
+	return false
+}
+
 func c06classifyDone(spec c06spec, r *fxRun) bool {
 	for _, c := range r.Contexts {
 		if c["binding"] == "onStartup" || c["type"] == "Synchronization" {
@@ -302,7 +313,7 @@ func c06check(obs *c06obs) (string, string) {
 			}
 			if !r.Failed {
 				doneItems[item]++
-				if strings.HasPrefix(what, "group:") {
+				if strings.HasPrefix(what, "group:") || c06hasGroup(r) {
 					groupSeen[r.Hook] = true
 				}
 				next++
@@ -363,6 +374,10 @@ func c06extra() []c06tmpl {
 			syncs: []string{"sync:kb1", "sync:kb2"}, events: map[string]string{"kb1": "sync:kb1", "kb2": "sync:kb2"}},
 		{id: "two-kube-q2", config: "configVersion: v1\nkubernetes:\n- name: kb1\n  kind: ConfigMap\n  namespace: {nameSelector: {matchNames: [n1]}}\n- name: kbq\n  kind: ConfigMap\n  queue: q2\n  namespace: {nameSelector: {matchNames: [n2]}}\n",
 			syncs: []string{"sync:kb1", "sync:kbq"}, events: map[string]string{"kb1": "sync:kb1", "kbq": "sync:kbq"}},
+		// a group whose bindings are not declared next to each other: the group's start-up is still
+		// one execution (the grouped head absorbs the Synchronization tasks behind it)
+		{id: "group-split", config: "configVersion: v1\nkubernetes:\n- name: kg5\n  kind: ConfigMap\n  group: g4\n  namespace: {nameSelector: {matchNames: [n1]}}\n- name: kb5\n  kind: ConfigMap\n  namespace: {nameSelector: {matchNames: [n2]}}\n- name: kg6\n  kind: ConfigMap\n  group: g4\n  namespace: {nameSelector: {matchNames: [n1]}}\n",
+			syncs: []string{"sync:kb5"}, events: map[string]string{"kg5": "sync:kb5", "kb5": "sync:kb5", "kg6": "sync:kb5"}},
 		{id: "group-nosync-last", config: "configVersion: v1\nkubernetes:\n- name: kg4\n  kind: ConfigMap\n  group: g3\n  namespace: {nameSelector: {matchNames: [n1]}}\n- name: kgm\n  kind: ConfigMap\n  group: g3\n  executeHookOnSynchronization: false\n  namespace: {nameSelector: {matchNames: [n2]}}\n",
 			syncs: []string{"group:g3"}, events: map[string]string{"kg4": "group:g3", "kgm": ""}},
 	}
